@@ -344,12 +344,15 @@ def align(ctx: Ctx) -> None:
         un = bcfg.node_of(uc[0])
         under = any(pol and isinstance(t, ast.Name) and t.id == "align_arrays" for t, pol in facts_at(bcfg, un))
         st = bcfg.nodes[un].stmt
-        rebinds = isinstance(st, ast.Assign) and isinstance(st.targets[0], ast.Tuple) and len(st.targets[0].elts) == 2 and unparse(st.targets[0].elts[1]) == "arrays"
-        whole = bool(uc[0].args) and isinstance(uc[0].args[0], ast.Starred) and unparse(uc[0].args[0].value) == "args"
+        # (chunks, unified arrays) = unify_chunks(*<all arguments>)
+        rebinds = isinstance(st, ast.Assign) and isinstance(st.targets[0], ast.Tuple) and len(st.targets[0].elts) == 2 and isinstance(st.targets[0].elts[1], ast.Name)
+        uvar = st.targets[0].elts[1].id if rebinds else None
+        whole = bool(uc[0].args) and isinstance(uc[0].args[0], ast.Starred) and unparse(uc[0].args[0].value) == bw.vararg
         used = False
         for nn in bw.own_nodes():
-            if isinstance(nn, ast.ListComp) and isinstance(nn.elt, ast.Attribute) and nn.elt.attr == "_zarray" and unparse(nn.generators[0].iter) == "arrays":
-                sites = bfl.rdefs("arrays", bcfg.node_of(nn))
+            # the storage objects handed to the primitive are taken from the unified arrays
+            if isinstance(nn, ast.ListComp) and isinstance(nn.elt, ast.Attribute) and nn.elt.attr == "_zarray" and isinstance(nn.generators[0].iter, ast.Name) and nn.generators[0].iter.id == uvar:
+                sites = bfl.rdefs(uvar, bcfg.node_of(nn))
                 used = any(s.node == un for s in sites)
         ok = under and rebinds and whole and used
     ctx.ob(bw, uc[0] if uc else None, ok, "blockwise(align_arrays=True) unifies the chunks of all operands and builds the operation from the unified arrays", sel="sanitizer:blockwise")
@@ -584,14 +587,26 @@ def blockid(ctx: Ctx) -> None:
     # key wrapper adds the offsets key at the same coordinates, last
     kw = repo.get(f"{A.OPS}.general_blockwise.back_key_function_with_offset.wrap")
     fa = [c for c in kw.own_nodes() if isinstance(c, ast.Call) and f"{A.PBW}.FunctionArgs" in repo.callee_quals(c, kw)]
+    kfl_, kcfg_ = flow_of(repo, kw), cfg_of(kw)
+    ck = [c for c in kw.own_nodes() if isinstance(c, ast.Call) and CHUNKKEY in repo.callee_quals(c, kw)]
+    okey = kw.params[0] if kw.params else None
+    wrapped = kw.parent.params[0] if kw.parent is not None and kw.parent.params else None
     ok = False
-    if fa:
+    if fa and ck and kcfg_.has(fa[0]):
         st = [a for a in fa[0].args if isinstance(a, ast.Starred)]
         if st and isinstance(st[0].value, ast.BinOp) and isinstance(st[0].value.op, ast.Add):
-            ok = "offset" in unparse(st[0].value.right) and "back_key_function" in unparse(st[0].value.left)
+            left, right = st[0].value.left, st[0].value.right
+            # left: the wrapped key function applied to this output key; right: (a tuple
+            # holding) the offsets key
+            l_ok = any(isinstance(c, ast.Call) and isinstance(c.func, ast.Name) and c.func.id == wrapped and c.args and isinstance(c.args[0], ast.Name) and c.args[0].id == okey for c in ast.walk(left))
+            rv, _ = _val(kfl_, kcfg_, right, kcfg_.node_of(fa[0]))
+            r_ok = any(c is ck[0] for c in ast.walk(rv))
+            ok = l_ok and r_ok
     ctx.ob(kw, fa[0] if fa else None, ok, "the offsets key is appended after the wrapped key function's keys", sel="blockid:key-last")
-    ck = [c for c in kw.own_nodes() if isinstance(c, ast.Call) and CHUNKKEY in repo.callee_quals(c, kw)]
-    ok = bool(ck) and len(ck[0].args) == 2 and unparse(ck[0].args[1]) == "out_coords" and any(isinstance(n, ast.Assign) and unparse(n.targets[0]) == "out_coords" and unparse(n.value) == "out_key.coords" for n in kw.own_nodes())
+    ok = bool(ck) and len(ck[0].args) == 2 and kcfg_.has(ck[0])
+    if ok:
+        cv, _ = _val(kfl_, kcfg_, ck[0].args[1], kcfg_.node_of(ck[0]))
+        ok = isinstance(cv, ast.Attribute) and cv.attr == "coords" and isinstance(cv.value, ast.Name) and cv.value.id == okey
     ctx.ob(kw, ck[0] if ck else None, ok, "the offsets block is read at the output block's own coordinates", sel="blockid:key-coords")
     # inverse pair
     gi = repo.get(f"{A.ST_VIRTUAL}.VirtualOffsetsArray.__getitem__")
@@ -604,6 +619,27 @@ def blockid(ctx: Ctx) -> None:
     ctx.ob(b2o, None, ok3, "block_id_to_offset is ravel_multi_index(block_id, numblocks)", sel="blockid:b2o", props=["C01", "C06"])
 
 
+def _val(fl, cfg, e, at):
+    """what a local name is bound to, when it has exactly one reaching plain assignment
+    (otherwise the expression itself) — names are followed, never compared as text"""
+    for _ in range(4):
+        if not isinstance(e, ast.Name):
+            return e, at
+        ds = fl.rdefs(e.id, at)
+        if len(ds) == 1 and ds[0].kind == "assign" and ds[0].value is not None:
+            e, at = ds[0].value, ds[0].node
+        else:
+            return e, at
+    return e, at
+
+
+def _same_var(fl, a: ast.Name, at_a: int, b: ast.Name, at_b: int) -> bool:
+    """two uses of one variable seeing the same definitions"""
+    if not (isinstance(a, ast.Name) and isinstance(b, ast.Name)) or a.id != b.id:
+        return False
+    return {(d.node, d.kind) for d in fl.rdefs(a.id, at_a)} == {(d.node, d.kind) for d in fl.rdefs(b.id, at_b)}
+
+
 @rule("PROXY-KEYS-1", props=["C15", "C01"], floor=8)
 def proxy_keys(ctx: Ctx) -> None:
     """one name chain links result arrays, plan nodes, write proxies and — for consumers —
@@ -612,88 +648,141 @@ def proxy_keys(ctx: Ctx) -> None:
     for q in (f"{A.OPS}.blockwise", f"{A.OPS}._general_blockwise"):
         f = repo.get(q)
         fl, cfg = flow_of(repo, f), cfg_of(f)
-        comps = {}
-        for nid, ss in fl.sites.items():
-            for s in ss:
-                if s.name in ("in_names", "zargs") and s.value is not None:
-                    comps.setdefault(s.name, []).append(s)
+        prim = [p for p in f.own_nodes() if isinstance(p, ast.Call) and any(t.kind == "def" and t.ref.module.qual == A.PBW and t.ref.name in ("blockwise", "general_blockwise") for t in repo.resolve_call(p, f, f.module))]
+        ctx.need(prim, f"{f.name}: call of the primitive not found")
+        pat = cfg.node_of(prim[0])
+        inn = kwarg(prim[0], "in_names")
+        ctx.ob(f, prim[0], inn is not None, f"{f.name}: the primitive receives in_names", sel=f"names:{f.name}:passes-in-names")
         ok = False
-        why = "in_names / zargs not found"
-        if "in_names" in comps:
-            lc = comps["in_names"][-1].value
-            ok = isinstance(lc, ast.ListComp) and isinstance(lc.elt, ast.Attribute) and lc.elt.attr == "name" and isinstance(lc.generators[0].iter, ast.Name) and not lc.generators[0].ifs
-            seq = lc.generators[0].iter.id if ok else None
+        why = "the in_names argument is not a list of `.name` of the operand sequence"
+        if inn is not None:
+            lc, lat = _val(fl, cfg, inn, pat)
+            ok = isinstance(lc, ast.ListComp) and isinstance(lc.elt, ast.Attribute) and lc.elt.attr == "name" and isinstance(lc.generators[0].iter, ast.Name) and not lc.generators[0].ifs and len(lc.generators) == 1
             why = f"in_names = `{unparse(lc, 50)}`"
             if ok:
-                # storage objects taken from the same sequence, same order
+                # storage objects taken from the same sequence (same variable, same
+                # definitions), same order
                 z_ok = False
                 for n in f.own_nodes():
-                    if isinstance(n, ast.ListComp) and isinstance(n.elt, ast.Attribute) and n.elt.attr == "_zarray":
-                        z_ok = isinstance(n.generators[0].iter, ast.Name) and n.generators[0].iter.id == seq and not n.generators[0].ifs
+                    if isinstance(n, ast.ListComp) and isinstance(n.elt, ast.Attribute) and n.elt.attr == "_zarray" and cfg.has(n):
+                        z_ok = len(n.generators) == 1 and not n.generators[0].ifs and _same_var(fl, n.generators[0].iter, cfg.node_of(n), lc.generators[0].iter, lat)
                 ok = z_ok
                 if not z_ok:
                     why = "storage objects are not taken from the same sequence in the same order"
-        ctx.ob(f, None, ok, f"{f.name}: input names and storage objects are listed from one sequence in one order" + ("" if ok else f" — {why}"), sel=f"names:{f.name}:in-order")
+        ctx.ob(f, prim[0], ok, f"{f.name}: input names and storage objects are listed from one sequence in one order" + ("" if ok else f" — {why}"), sel=f"names:{f.name}:in-order")
         # the result's name = target name(s) = plan node name
-        prim = [p for p in f.own_nodes() if isinstance(p, ast.Call) and any(t.kind == "def" and t.ref.module.qual == A.PBW and t.ref.name in ("blockwise", "general_blockwise") for t in repo.resolve_call(p, f, f.module))]
         new = repo.calls_to(f, A.PLAN_NEW)
         arr = repo.calls_to(f, f"{A.AOBJ}.Array")
-        ok = bool(prim and new and arr)
+        ok = bool(new and arr)
         if ok:
             tn = kwarg(prim[0], "target_name") or kwarg(prim[0], "target_names")
-            n0 = new[0].args[0]
-            names = {unparse(n0)}
-            tn_txt = unparse(tn)
-            a_names = {unparse(a.args[0]) for a in arr}
-            if tn_txt in ("name", "target_names"):
-                # target_names = name | [name]
-                base_ok = True
-                if tn_txt == "target_names":
-                    base_ok = all(s.value is not None and unparse(s.value) in ("name", "[name]") for s in fl.rdefs("target_names", cfg.node_of(prim[0])))
-                ok = base_ok and names == {"name"} and a_names <= {"name", "n"}
+            n0 = new[0].args[0] if new[0].args else None
+            ok = isinstance(n0, ast.Name) and tn is not None
+        if ok:
+            nat = cfg.node_of(new[0])
+            # the plan-node name is generated by gensym (one name or one per output)
+            gens = [d_.value for d_ in fl.rdefs(n0.id, nat)]
+            ok = bool(gens) and all(v is not None and any(isinstance(c, ast.Call) and any(t.kind == "def" and t.ref.name == "gensym" for t in repo.resolve_call(c, f, f.module)) for c in ast.walk(v)) for v in gens)
+            # target name(s): that variable, or a variable every definition of which is it / [it]
+            def is_n0(e, at_):
+                return isinstance(e, ast.Name) and _same_var(fl, e, at_, n0, nat) or (isinstance(e, ast.Name) and e.id == n0.id and {d_.node for d_ in fl.rdefs(e.id, at_)} <= {d_.node for d_ in fl.rdefs(n0.id, nat)})
+
+            if isinstance(tn, ast.Name) and tn.id != n0.id:
+                tds = fl.rdefs(tn.id, pat)
+                ok = ok and bool(tds) and all(
+                    d_.kind == "assign" and (is_n0(d_.value, d_.node) or (isinstance(d_.value, ast.List) and len(d_.value.elts) == 1 and is_n0(d_.value.elts[0], d_.node)))
+                    for d_ in tds
+                )
             else:
-                ok = False
-        ctx.ob(f, prim[0] if prim else None, ok, f"{f.name}: the generated name is used for the write proxy (target_name), the plan node and the returned Array alike", sel=f"names:{f.name}:result")
-        inn = kwarg(prim[0], "in_names") if prim else None
-        ctx.ob(f, prim[0] if prim else None, inn is not None and unparse(inn) == "in_names", f"{f.name}: the primitive receives in_names", sel=f"names:{f.name}:passes-in-names")
+                ok = ok and is_n0(tn, pat)
+            # every returned Array is named by it (directly, or element-wise through zip(name, ...))
+            for a in arr:
+                a0 = a.args[0] if a.args else None
+                if isinstance(a0, ast.Name) and id(a0) in fl.comp_bind:
+                    it, path = fl.comp_bind[id(a0)]
+                    ok = ok and isinstance(it, ast.Call) and unparse(it.func) == "zip" and path == (0,) and bool(it.args) and isinstance(it.args[0], ast.Name) and it.args[0].id == n0.id
+                else:
+                    ok = ok and cfg.has(a) and is_n0(a0, cfg.node_of(a))
+        ctx.ob(f, prim[0], ok, f"{f.name}: the generated name is used for the write proxy (target_name), the plan node and the returned Array alike", sel=f"names:{f.name}:result")
     g = repo.get(f"{A.PBW}.general_blockwise")
     fl, cfg = flow_of(repo, g), cfg_of(g)
+    ctx.need("in_names" in g.params and "target_names" in g.params, "primitive general_blockwise lost its in_names/target_names parameters")
+    # AN: the variable holding `in_names or <default names>`
+    an = [s_ for ss in fl.sites.values() for s_ in ss if s_.kind == "assign" and isinstance(s_.value, ast.BoolOp) and isinstance(s_.value.op, ast.Or) and isinstance(s_.value.values[0], ast.Name) and s_.value.values[0].id == "in_names"]
+    ctx.ob(g, an[0].value if an else None, len(an) == 1, "primitive: array_names are the caller's in_names", sel="names:primitive:array-names")
+    AN = an[0].name if an else None
     am = [n for n in g.own_nodes() if isinstance(n, ast.DictComp) and isinstance(n.generators[0].iter, ast.Call) and unparse(n.generators[0].iter.func) == "zip"]
     ok = False
     for d in am:
         z = d.generators[0].iter
-        ok = len(z.args) == 2 and unparse(z.args[0]) == "array_names" and unparse(z.args[1]) == g.vararg and any(k.arg == "strict" and isinstance(k.value, ast.Constant) and k.value.value is True for k in z.keywords)
+        ok = len(z.args) == 2 and isinstance(z.args[0], ast.Name) and z.args[0].id == AN and unparse(z.args[1]) == g.vararg and any(k.arg == "strict" and isinstance(k.value, ast.Constant) and k.value.value is True for k in z.keywords)
+        # key = the name, value = the array (not swapped)
+        tg = d.generators[0].target
+        ok = ok and isinstance(tg, ast.Tuple) and len(tg.elts) == 2 and unparse(d.key) == unparse(tg.elts[0]) and unparse(d.value) == unparse(tg.elts[1])
     ctx.ob(g, am[0] if am else None, ok, "primitive: names are zipped strictly with the operand arrays, in order", sel="names:primitive:zip")
-    an = [s for ss in fl.sites.values() for s in ss if s.name == "array_names" and s.value is not None]
-    ok = bool(an) and all(isinstance(s.value, ast.BoolOp) and unparse(s.value.values[0]) == "in_names" for s in an)
-    ctx.ob(g, None, ok, "primitive: array_names are the caller's in_names", sel="names:primitive:array-names")
     po = repo.calls_to(g, f"{A.PTYPES}.PrimitiveOperation")
-    ok = bool(po) and unparse(kwarg(po[0], "source_array_names")) == "array_names"
+    san = kwarg(po[0], "source_array_names") if po else None
+    ok = isinstance(san, ast.Name) and san.id == AN
     ctx.ob(g, po[0] if po else None, ok, "primitive: source_array_names are the same names that key the read proxies", sel="names:primitive:source-names")
-    wp = [n for n in g.own_nodes() if isinstance(n, ast.Assign) and isinstance(n.targets[0], ast.Subscript) and unparse(n.targets[0].value) == "write_proxies"]
-    ok = bool(wp) and unparse(wp[0].targets[0].slice) == "target_names[i]"
-    ctx.ob(g, wp[0] if wp else None, ok, "primitive: write proxies are keyed by target_names[i]", sel="names:primitive:write-keys")
     bs = repo.calls_to(g, f"{A.PBW}.BlockwiseSpec")
-    ok = bool(bs) and len(bs[0].args) >= 6 and unparse(bs[0].args[4]) == "read_proxies" and unparse(bs[0].args[5]) == "write_proxies"
-    ctx.ob(g, bs[0] if bs else None, ok, "primitive: the spec gets the read and write proxy dictionaries in their positions", sel="names:primitive:spec")
+    R = bs[0].args[4] if bs and len(bs[0].args) >= 6 else None
+    W = bs[0].args[5] if bs and len(bs[0].args) >= 6 else None
+    wp = [n for n in g.own_nodes() if isinstance(n, ast.Assign) and isinstance(n.targets[0], ast.Subscript) and isinstance(n.targets[0].value, ast.Name) and isinstance(W, ast.Name) and n.targets[0].value.id == W.id]
+    ok = bool(wp)
+    for w_ in wp:
+        sl = w_.targets[0].slice
+        ok = ok and isinstance(sl, ast.Subscript) and isinstance(sl.value, ast.Name) and sl.value.id == "target_names" and isinstance(sl.slice, ast.Name)
+        if ok:
+            ids = fl.rdefs(sl.slice.id, cfg.node_of(w_))
+            ok = bool(ids) and all(x.kind == "for" and x.index == (0,) and isinstance(x.value, ast.Call) and unparse(x.value.func) == "enumerate" for x in ids)
+    ctx.ob(g, wp[0] if wp else None, ok, "primitive: write proxies are keyed by target_names[i], i enumerating the outputs", sel="names:primitive:write-keys")
+    ok = isinstance(R, ast.Name) and isinstance(W, ast.Name) and R.id != W.id
+    if ok:
+        rv, _ = _val(fl, cfg, R, cfg.node_of(bs[0]))
+        # read proxies: {name: proxy(array)} over the items of the name→array map built above
+        ok = isinstance(rv, ast.DictComp) and isinstance(rv.generators[0].iter, ast.Call) and isinstance(rv.generators[0].iter.func, ast.Attribute) and rv.generators[0].iter.func.attr == "items"
+        if ok:
+            mv, _ = _val(fl, cfg, rv.generators[0].iter.func.value, cfg.node_of(bs[0]))
+            ok = any(mv is d for d in am)
+            tg = rv.generators[0].target
+            ok = ok and isinstance(tg, ast.Tuple) and unparse(rv.key) == unparse(tg.elts[0])
+    ctx.ob(g, bs[0] if bs else None, ok, "primitive: the spec gets the read proxies (keyed by the operand names) and the write proxies in their positions", sel="names:primitive:spec")
     # index-notation key function uses the same names
     b = repo.get(f"{A.PBW}.blockwise")
-    ok = any(isinstance(n, ast.Assign) and unparse(n.targets[0]) == "array_names" and "in_names" in unparse(n.value) for n in b.own_nodes())
+    ok = any(isinstance(n, ast.Assign) and isinstance(n.value, ast.BoolOp) and isinstance(n.value.op, ast.Or) and isinstance(n.value.values[0], ast.Name) and n.value.values[0].id == "in_names" and "in_names" in b.params for n in b.own_nodes())
     ctx.ob(b, None, ok, "primitive blockwise: index-notation keys are generated under the caller's in_names", sel="names:blockwise:array-names")
     # index-notation key function: the coordinate map of an argument is bound by *position*
     # (the same array may appear twice with different index patterns, e.g. x 'ij' and x 'ji')
+    mk = repo.get(f"{A.PBW}.make_blockwise_back_key_function")
     bk = repo.get(f"{A.PBW}.make_blockwise_back_key_function.back_key_function")
     kfl, kcfg = flow_of(repo, bk), cfg_of(bk)
-    uses = [n for n in bk.own_nodes() if isinstance(n, (ast.GeneratorExp, ast.ListComp)) and isinstance(n.elt, ast.Subscript) and unparse(n.elt.value) == "coords" and isinstance(n.generators[0].iter, ast.Name)]
+    mfl = flow_of(repo, mk)
+    # in the enclosing function: (coordinate maps, …) = _get_coord_mapping(…, <argument pairs>, …)
+    cm_sites = [s_ for ss in mfl.sites.values() for s_ in ss if s_.kind == "unpack" and s_.index == (0,) and isinstance(s_.value, ast.Call) and any(t.kind == "def" and t.ref.name == "_get_coord_mapping" for t in repo.resolve_call(s_.value, mk, mk.module))]
+    ctx.need(len(cm_sites) == 1, "coordinate-map plan (_get_coord_mapping) not found in make_blockwise_back_key_function")
+    CMAPS = cm_sites[0].name
+    PAIRS = {a.id for a in cm_sites[0].value.args if isinstance(a, ast.Name) and any(d_.value is not None and any(isinstance(c_, ast.Call) and (attr_chain(c_.func) or "").endswith("partition") for c_ in ast.walk(d_.value)) for d_ in mfl.rdefs(a.id, cm_sites[0].node))}
+    ctx.need(PAIRS, "argument-pair list not found in make_blockwise_back_key_function")
+    # uses: (X[c] for c in <one coordinate map>)
+    uses = [
+        n
+        for n in bk.own_nodes()
+        if isinstance(n, (ast.GeneratorExp, ast.ListComp))
+        and isinstance(n.elt, ast.Subscript)
+        and isinstance(n.generators[0].iter, ast.Name)
+        and isinstance(n.generators[0].target, ast.Name)
+        and isinstance(n.elt.slice, ast.Name)
+        and n.elt.slice.id == n.generators[0].target.id
+    ]
     ok = bool(uses)
     why = "coordinate-map use not found"
     for u_ in uses:
         cm = u_.generators[0].iter
         at = kcfg.node_of(u_)
         for s_ in kfl.rdefs(cm.id, at):
-            if s_.kind == "for" and isinstance(s_.value, ast.Call) and unparse(s_.value.func) == "zip" and any("coord_maps" in unparse(a) for a in s_.value.args) and any("argpairs" in unparse(a) for a in s_.value.args):
+            if s_.kind == "for" and isinstance(s_.value, ast.Call) and unparse(s_.value.func) == "zip" and any(isinstance(a, ast.Name) and a.id == CMAPS for a in s_.value.args) and any(isinstance(a, ast.Name) and a.id in PAIRS for a in s_.value.args):
                 continue
-            if s_.kind in ("assign", "unpack") and s_.value is not None and isinstance(s_.value, ast.Subscript) and unparse(s_.value.value) == "coord_maps" and not isinstance(s_.value.slice, ast.Constant):
+            if s_.kind in ("assign", "unpack") and s_.value is not None and isinstance(s_.value, ast.Subscript) and isinstance(s_.value.value, ast.Name) and s_.value.value.id == CMAPS and not isinstance(s_.value.slice, ast.Constant):
                 idx = s_.value.slice
                 if isinstance(idx, ast.Name) and any(x.kind == "for" and x.index == (0,) for x in kfl.rdefs(idx.id, s_.node)):
                     continue  # coord_maps[i] with i from enumerate
@@ -933,29 +1022,68 @@ def twin_role(ctx: Ctx) -> None:
     (and vice versa) — the classic copy-paste slip between two near-identical branches"""
     repo = ctx.repo
     n = 0
+    seen_br: set = set()
     for d in repo.functions():
         if d.module.qual.startswith(("cubed.vendor.", "cubed.diagnostics.")):
             continue
         names = {x.id for x in d.own_nodes() if isinstance(x, ast.Name)}
+
+        def swap(nm: str, a: str, b: str) -> str | None:
+            """the twin of a name: its `a` token replaced by `b` (pad_before → pad_after)"""
+            toks = nm.split("_")
+            if toks.count(a) != 1:
+                return None
+            return "_".join(b if t == a else t for t in toks)
+
         for role, other in ROLE_PAIRS:
-            stems = {nm[: -len(role)] for nm in names if nm.endswith("_" + role) or nm == role}
-            stems = {s for s in stems if (s + other) in names}
-            if len(stems) < 2:
+            mine_all = {nm for nm in names if swap(nm, role, other) in names}
+            if len(mine_all) < 2:
                 continue
+            theirs_all = {swap(nm, role, other) for nm in mine_all}
             for br in [x for x in d.own_nodes() if isinstance(x, ast.If)]:
                 tn = {x.id for x in ast.walk(br.test) if isinstance(x, ast.Name)}
-                mine = {t for t in tn if any(t == s + role for s in stems)}
-                theirs = {t for t in tn if any(t == s + other for s in stems)}
+                mine = tn & mine_all
+                theirs = tn & theirs_all
                 if not mine or theirs:
                     continue
                 n += 1
-                wrong = sorted({x.id for st in br.body for x in ast.walk(st) if isinstance(x, ast.Name) and isinstance(x.ctx, ast.Load) and any(x.id == s + other for s in stems)})
+                seen_br.add((d.qual, id(br)))
+                wrong = sorted({x.id for st in br.body for x in ast.walk(st) if isinstance(x, ast.Name) and isinstance(x.ctx, ast.Load) and x.id in theirs_all})
                 ctx.ob(
                     d,
                     br,
                     not wrong,
                     f"branch on `{unparse(br.test, 40)}` handles the `{role}` side"
                     + ("" if not wrong else f" but uses {wrong}: its twin branch uses the `{other}` members — the `{role}` side gets the `{other}` side's value"),
-                    sel=f"twin:{role}:{unparse(br.test, 30)}",
+                    sel=f"twin:{role}:{ctx.anon(d, br.test, 30)}",
                 )
+        # structural discovery, independent of names: two or more pairs unpacked side by side
+        # — `for …, ((a0, a1), (b0, b1)) in …` — bind {a0, b0} to the first role and {a1, b1}
+        # to the second
+        for tgt in [x.target for x in d.own_nodes() if isinstance(x, (ast.For, ast.comprehension))] + [x.targets[0] for x in d.own_nodes() if isinstance(x, ast.Assign)]:
+            pairs = [t for t in ast.walk(tgt) if isinstance(t, ast.Tuple) and len(t.elts) == 2 and all(isinstance(e, ast.Name) for e in t.elts)]
+            groups = [t for t in ast.walk(tgt) if isinstance(t, ast.Tuple) and sum(1 for e in t.elts if any(e is p_ for p_ in pairs)) >= 2]
+            for gp in groups:
+                ps = [e for e in gp.elts if any(e is p_ for p_ in pairs)]
+                roles = ({e.elts[0].id for e in ps}, {e.elts[1].id for e in ps})
+                for k in (0, 1):
+                    mine_all, theirs_all = roles[k], roles[1 - k]
+                    for br in [x for x in d.own_nodes() if isinstance(x, ast.If)]:
+                        tn = {x.id for x in ast.walk(br.test) if isinstance(x, ast.Name)}
+                        if not (tn & mine_all) or (tn & theirs_all):
+                            continue
+                        sel = f"twin:{'first' if k == 0 else 'second'}:{ctx.anon(d, br.test, 30)}"
+                        if (d.qual, id(br)) in seen_br:
+                            continue
+                        seen_br.add((d.qual, id(br)))
+                        n += 1
+                        wrong = sorted({x.id for st in br.body for x in ast.walk(st) if isinstance(x, ast.Name) and isinstance(x.ctx, ast.Load) and x.id in theirs_all})
+                        ctx.ob(
+                            d,
+                            br,
+                            not wrong,
+                            f"branch on `{unparse(br.test, 40)}` handles the {'first' if k == 0 else 'second'} member of the pairs unpacked together"
+                            + ("" if not wrong else f" but uses {wrong}, the other member of a sibling pair: one side gets the other side's value"),
+                            sel=sel,
+                        )
     ctx.need(n >= 1, "no twin (before/after) branches found")
